@@ -861,6 +861,85 @@ def threaded(ctx, rounds, nthreads, ntasks):
         sys.setswitchinterval(old)
 
 
+def rows_job(seed):
+    """private data full of equal, unhashable sub-lists ("rows"): their prepared strings are digested again and again,
+    back to back - what a racy memo inside the default hasher needs"""
+    rnd = random.Random(seed)
+    rows = []
+    for _ in range(6):
+        row = [rnd.randrange(1000) for _ in range(4)]
+        rows.extend([list(row) for _ in range(3)])
+    rnd.shuffle(rows)
+    t1 = [list(r) for r in rows]
+    t2 = [list(r) for r in rows]
+    rnd.shuffle(t2)
+    t2[0] = t2[0][:-1] + [t2[0][-1] + 1]
+    return t1, t2
+
+
+def rows_compute(job, kind):
+    from deepdiff import DeepDiff, DeepHash, Delta
+    t1, t2 = job
+    try:
+        if kind == 0:
+            h = DeepHash(t1)
+            return repr((h[t1], tuple(h[row] for row in t1)))
+        if kind == 1:
+            return repr(DeepDiff(t1, t2, ignore_order=True, report_repetition=True, cache_size=7).to_dict())
+        if kind == 2:
+            h = DeepHash(t2, ignore_repetition=False)
+            return repr(h[t2]) + repr(DeepDiff(t1, t2, ignore_order=True).to_dict())
+        d = Delta(DeepDiff(t1, t2, ignore_order=True, report_repetition=True), raise_errors=False, log_errors=False)
+        return typed(copy.deepcopy(t1) + d)
+    except Exception as e:  # noqa
+        return "EXC " + repr(e)
+
+
+def threaded_rows(ctx, rounds, nthreads=12, per_thread=4):
+    """every thread hashes / diffs / patches its OWN data at the same time as the others (barrier start, switch interval
+    1e-6); each result must be the one obtained alone"""
+    seeds = [ctx.rng.randrange(1 << 30) for _ in range(nthreads * per_thread)]
+    jobs = [(rows_job(sd), i % 4) for i, sd in enumerate(seeds)]
+    old = sys.getswitchinterval()
+    alone = [rows_compute(j, k) for j, k in jobs]
+    again = [rows_compute(j, k) for j, k in jobs]
+    for i, (a, b) in enumerate(zip(alone, again)):
+        if a != b:
+            ctx.fail({"kind": "repeat_rows", "seed": seeds[i], "computation": jobs[i][1]}, "two identical sequential runs gave different results")
+    bad = []
+    try:
+        sys.setswitchinterval(1e-6)
+        for r in range(rounds):
+            order = list(range(len(jobs)))
+            ctx.rng.shuffle(order)
+            barrier = threading.Barrier(nthreads)
+            got = [None] * len(jobs)
+
+            def work(idx):
+                barrier.wait()
+                for i in idx:
+                    got[i] = rows_compute(*jobs[i])
+            ts = [threading.Thread(target=work, args=(order[k::nthreads],)) for k in range(nthreads)]
+            for t in ts:
+                t.start()
+            for t in ts:
+                t.join()
+            for i in range(len(jobs)):
+                ctx.seen(("rows", r, i))
+                if got[i] != alone[i]:
+                    bad.append((r, i, got[i]))
+            if bad:
+                break
+    finally:
+        sys.setswitchinterval(old)
+    ctx.count("threads:rows_tasks", len(jobs) * (r + 1))
+    for r, i, g in bad[:3]:
+        t1, t2 = jobs[i][0]
+        ctx.fail({"kind": "threads_rows", "round": r, "seed": seeds[i], "computation": ["DeepHash", "DeepDiff(ignore_order, report_repetition, cache_size=7)", "DeepHash+DeepDiff(ignore_order)", "Delta"][jobs[i][1]],
+                  "t1": repr(t1), "t2": repr(t2), "threads": nthreads, "alone": alone[i][:300], "concurrent": str(g)[:300]},
+                 "a computation on private data gave a different result when %d threads computed at the same time" % nthreads)
+
+
 def delta_parked(ctx):
     """deterministic interleaving: thread A is parked in the middle of `t1 + delta` (inside the item
     assignment of a list subclass) while an unrelated Delta is applied from start to end in this thread"""
@@ -940,6 +1019,7 @@ def run(ctx):
     t0 = time.time()
     delta_parked(ctx)
     threaded(ctx, 8 if ctx.thorough else 3, 12, 120 if ctx.thorough else 48)
+    threaded_rows(ctx, 30 if ctx.thorough else 6)
     tm["threads"] = round(time.time() - t0, 1)
     ctx.note("phase_wall_s", tm)
 
@@ -966,6 +1046,10 @@ def replay(ctx, data):
     if case.get("kind") == "threads_delta_parked":
         delta_parked(ctx)
         print("replay: threads_delta_parked ->", "failed" if ctx.failures else "results agree")
+        return
+    if case.get("kind") == "threads_rows":
+        threaded_rows(ctx, 20)
+        print("replay: threaded rows stress re-run ->", "failed" if ctx.failures else "results agree")
         return
     if case.get("kind") == "threads":
         threaded(ctx, 6, 12, 96)
